@@ -129,9 +129,9 @@ CHECKS.update({
  "C16": dict(level="exploration", engine="rapidcheck", design="3/C16",
    technique="rapidcheck-generated calls of every registered binding (src/gsl/amplgsl.cc compiled against a stand-in funcadd.h, ASan+UBSan) in all request modes; oracle: "
              "returns/deterministic/no silent NaN/error on NaN and integer-argument derivatives, and returned partials vs Ridders extrapolation of the binding's own values",
-   text="About 80000 generated calls per quick run over all 343 registered functions x argument classes (regular, near singular, zero, negative, huge/tiny, NaN, "
-        "non-integers for integer arguments) x value / first / first+second derivatives x constant masks. Two recorded findings are excluded by signature and probed.",
-   note="derivative comparison is made only where the numerical derivative is well resolved (about 1 call in 6); 1% tolerance finds formula errors, not last-digit inaccuracy"),
+   text="About 28000 generated calls per quick run over all 343 registered functions x argument classes (regular, near singular, zero, negative, huge/tiny, NaN, "
+        "non-integers for integer arguments) x value / first / first+second derivatives x constant masks. Recorded findings are excluded by signature and probed by fixed inputs.",
+   note="derivative comparison is made only where the numerical derivative is well resolved (about 1 call in 5); 1% tolerance finds formula errors, not last-digit inaccuracy; four recorded findings (two of them defects of libgsl itself) are excluded by signature"),
 })
 
 CHECKS.update({
@@ -156,7 +156,7 @@ CHECKS.update({
  "C08": dict(level="exploration", engine="rapidcheck", design="3/C08",
    technique="rapidcheck-generated matrix models -> mp::NLModel -> NLSolver::LoadModel -> repository NL reader (mp::Problem + recording handler), compared up to the reported permutation "
              "with rows/objective judged as functions at test points; generated .sol -> NLSolver::ReadSolution compared in the caller's order",
-   text="About 64000 generated models per quick run: column type / nonlinearity patterns, bounds of all kinds, sparse rows, Hessians in both declared formats with diagonal-only, "
+   text="About 380000 generated models per quick run: column type / nonlinearity patterns, bounds of all kinds, sparse rows, Hessians in both declared formats with diagonal-only, "
         "off-diagonal-only, duplicate and one-triangle entries, warm starts, suffixes of all kinds, names x {text, binary} x {comments}, plus the solution way back.",
    note="objective semantics taken from NLModel::ComputeObjValue's documentation (0.5 x'Qx over the given entries)"),
 })
